@@ -145,7 +145,12 @@ def gen():
     ci, cv = structs["__component__"]
     out.append("(* the other matcher: POS component compared with one value *)\nDefinition component_index : N := %d%%N.\nDefinition component_value : list N := %s.\n" % (ci, cps(cv)))
     b = ws(F.fn_body(p, "make_matcher", PROJ))
-    if not re.search(r"dic\.grammar\(\)\.pos_list\.iter\(\)\.enumerate\(\)\.filter_map\(\|p\| \{ let \(id, pos\) = p; if f\(pos\) \{ Some\(id as u16\) \} else \{ None \} \}\); PosMatcher::new\(ids\)", b):
+    # every (index, POS) of the grammar, in order; kept iff f(pos); as u16 -- closure with a destructuring `let`, a tuple
+    # pattern, if / else or bool::then
+    b_ = re.sub(r"\s*\.\s*", ".", b)
+    chain = r"dic\.grammar\(\)\.pos_list\.iter\(\)\.enumerate\(\)\.filter_map\("
+    keep = r"(?:if f\(pos\) \{ Some\(id as u16\) \} else \{ None \}|f\(pos\)\.then\(\|\| id as u16\)|f\(pos\)\.then_some\(id as u16\))"
+    if not re.search(chain + r"(?:\|p\| \{ let \(id, pos\) = p; " + keep + r" \}|\|\(id, pos\)\| (?:\{ )?" + keep + r"(?: \})?)\); PosMatcher::new\(ids\)", b_):
         raise F.FactError("make_matcher shape not recognised")
     b = ws(F.fn_body(p, "parse_projection_raw", PROJ))
     if not re.search(r"match SurfaceProjection::try_from\(value\) \{ Ok\(v\) => \{ if v == SurfaceProjection::Surface \{ Ok\(\(None, SurfaceProjection::Surface\)\) \} else \{ Ok\(\(Some\(morpheme_projection\(v, dict\)\), v\)\) \} \} Err\(e\) => Err\(", b):
@@ -204,7 +209,12 @@ def gen():
         raise F.FactError("Morpheme.end is no longer end_c()")
     if body_of("raw_surface") != "PyString::new(py, self.morph(py).surface().deref())":
         raise F.FactError("Morpheme.raw_surface is no longer the core surface()")
-    if body_of("surface") != "let list = self.list(py); let morph = self.morph(py); match list.projection() { None => PyString::new(py, morph.surface().deref()), Some(proj) => proj.project(morph.deref(), py), }":
+    plain, projected = "PyString::new(py, morph.surface().deref())", "proj.project(morph.deref(), py)"
+    head = "let list = self.list(py); let morph = self.morph(py); "
+    if body_of("surface") not in (
+            head + "match list.projection() { None => %s, Some(proj) => %s, }" % (plain, projected),
+            head + "match list.projection() { Some(proj) => %s, None => %s, }" % (projected, plain),
+            head + "if let Some(proj) = list.projection() { %s } else { %s }" % (projected, plain)):
         raise F.FactError("Morpheme.surface shape not recognised")
     out.append("Definition py_begin_is : string := \"begin_c\".\nDefinition py_end_is : string := \"end_c\".\nDefinition py_raw_surface_is : string := \"surface\".\n")
     return "".join(out)
